@@ -7,6 +7,11 @@ ALL = ["C%02d" % i for i in range(1, 21)]
 
 # id -> (category, technique, level text, level note, design ref, engine)
 CHECKS = {
+ "C16": ("model_checking",
+         "bounded-exhaustive enumeration of encoder layout choices (independent spec encoders) x BFS tile-set states; every produced container opened, looked up, coverage-checked and streamed with the real readers",
+         "The harness's own encoders for versatiles v02 (96 layouts: partial/full/margin block coverage, block and tile order, shared ranges, padding, no metadata), PMTiles v3 (112 layouts: run lengths, shared offsets, 0-2 leaf levels with tiny leaves, uncompressed/gzip directories, unclustered data), MBTiles (16: tiles as view over map/images, extra metadata, no index, TMS rows, zoom gaps), tar (32: ./ prefix, directory entries, ustar/GNU, order) and directories with foreign files are run over every BFS tile set to depth 2 (all layouts for depth<=1 and the named families, a spread of layouts for depth 2 in quick, all in thorough); the repository's readers must open each, return exactly the encoded tiles, advertise the exact coverage (containment for versatiles) and stream it without failure.",
+         "The encoders are the harness's reading of the published layouts (cross-checked: the harness's decoders read the repository's files in C01 and the harness's own files here). Layout freedoms not enumerated: PMTiles zstd/brotli internal compression, tar pax headers, MBTiles gzip detection.",
+         "3/C16", "E-enum"),
  "C03": ("model_checking",
          "bounded-exhaustive enumeration: BFS tile-set states plus all non-empty subsets of small grids x 5 formats; advertised pyramid compared with the set of tiles lookups return",
          "Every BFS tile set to depth 2, every non-empty subset of a 5x2 (quick) / 5x3 (thorough) grid at z=3 and of a 3x3 / 4x3 grid at z=4 rows 9..11, single tiles at level 0 and the far corner of level 31, zoom gaps, each written to all five formats by the repository's writers and re-opened: every tile found by lookups over a probe superset must lie in the advertised pyramid, and for mbtiles/pmtiles/tar/directory every level box must equal the bounding box of the tiles (empty iff none). Pipelines over sources with different pyramids: containment.",
